@@ -107,6 +107,24 @@ class Layout:
             if s["d"]["l"] == 0 and s["r"].get("k") == "use" and s["r"]["op"].get("k") == "move":
                 buf = s["r"]["op"]["pl"]["l"]
         if buf is None:
+            # the move into _0 may sit in another block (code inlined from a helper that returned the buffer): a single `_0 = move x`
+            movs = [s for blk in b["blocks"] for s in blk["s"] if s["d"]["l"] == 0 and not s["d"].get("p") and s["r"].get("k") == "use" and s["r"]["op"].get("k") == "move" and not s["r"]["op"]["pl"].get("p")]
+            if len(movs) == 1:
+                buf = movs[0]["r"]["op"]["pl"]["l"]
+        # the buffer may change hands through whole-value moves (`let mut v = header(..); ..; v` with the header inlined):
+        # all locals connected by `a = move b` are one buffer
+        alias = {buf} if buf is not None else set()
+        changed = buf is not None
+        while changed:
+            changed = False
+            for blk in b["blocks"]:
+                for s in blk["s"]:
+                    if s["r"].get("k") == "use" and s["r"]["op"].get("k") == "move" and not s["d"].get("p") and not s["r"]["op"]["pl"].get("p"):
+                        a_, b_ = s["d"]["l"], s["r"]["op"]["pl"]["l"]
+                        if a_ in alias and b_ not in alias and b_ != 0 and not (1 <= b_ <= b["argc"]):
+                            alias.add(b_); changed = True
+        self._alias = alias
+        if buf is None:
             # `fn f(..) -> Vec<u8> { g(..) }`: the payload is built by another generator - inline it
             for p_ in g["pred"][R] + [R]:
                 t = b["blocks"][p_].get("t") or {}
@@ -118,7 +136,7 @@ class Layout:
         # any loop => not a straight-line builder
         order = self._rpo(g)
         tokens = []
-        init = [d for d in self.defs.get(buf, []) if d[0] in ("assign", "call")]
+        init = [d for a_ in sorted(alias) for d in self.defs.get(a_, []) if d[0] in ("assign", "call") and not (d[0] == "assign" and d[1].get("k") == "use" and d[1]["op"].get("k") == "move" and d[1]["op"]["pl"]["l"] in alias)]
         if len(init) != 1:
             raise CheckerError(f"layout: buffer of {b['path']} has {len(init)} initialisations")
         kind, r, bb0, _ = init[0]
@@ -132,7 +150,7 @@ class Layout:
         mutrefs = {}
         for blk in b["blocks"]:
             for s in blk["s"]:
-                if s["r"].get("k") == "ref" and s["r"].get("mut") and s["r"]["pl"]["l"] == buf and not s["r"]["pl"].get("p"):
+                if s["r"].get("k") == "ref" and s["r"].get("mut") and s["r"]["pl"]["l"] in alias and not s["r"]["pl"].get("p"):
                     mutrefs[s["d"]["l"]] = True
         for i in order:
             t = b["blocks"][i].get("t") or {}
@@ -159,6 +177,17 @@ class Layout:
             return None
         sub = Layout(self.fb, cb).sequence()
         actual = [self.operand(x) for x in t["a"]]
+        # an argument that is the constant `None`: whatever the callee appends under `if let Some(..) = argN` is never appended
+        none_args = set()
+        for i_, x in enumerate(t["a"]):
+            if x.get("k") in ("copy", "move") and not x["pl"].get("p"):
+                d_ = self.single(x["pl"]["l"])
+                if d_ and d_[0] == "assign" and d_[1].get("k") == "agg" and d_[1].get("variant") == "None":
+                    none_args.add(i_ + 1)
+            elif x.get("k") == "const" and "None" in str(x.get("v", "")):
+                none_args.add(i_ + 1)
+        if none_args:
+            sub = [(tok, o) for tok, o in sub if not any(re.search(rf"\barg{n_}\?", tok) for n_ in none_args)]
         def subst(tok):
             return re.sub(r"\barg(\d+)\b", lambda m_: actual[int(m_.group(1)) - 1] if int(m_.group(1)) - 1 < len(actual) else m_.group(0), tok)
         return [(subst(tok), o) for tok, o in sub]
